@@ -25,6 +25,11 @@ impl Tracer {
         let mut g = self.out.lock().unwrap_or_else(|e| e.into_inner());
         serde_json::to_writer(&mut *g, v).expect("trace write");
         g.write_all(b"\n").expect("trace write");
+        // run boundaries reach the file at once: if the code under test crashes the process, the trace still holds
+        // every completed run and the `reset` of the run that crashed (lib/vlib.py run_stimuli appends the `abort`)
+        if matches!(v.get("ev").and_then(Value::as_str), Some("reset" | "end" | "abort")) {
+            g.flush().expect("trace flush");
+        }
     }
 
     pub fn flush(&self) {
